@@ -216,7 +216,7 @@ def evaluate__mod_operator(self: XPathToken, context: ta.ContextType = None) \
         return []
     elif op2 is None:
         raise self.error('XPTY0004', '2nd operand is an empty sequence')
-    elif op2 == 0 and isinstance(op2, float):
+    elif op2 == 0 and (isinstance(op1, float) or isinstance(op2, float)):
         return math.nan
     elif math.isinf(op2) and not math.isinf(op1) and op1 != 0:
         return op1 if self.parser.version != '1.0' else math.nan
